@@ -20,6 +20,7 @@ import Kopf.Lemmas.C01_Inv2
 import Kopf.Lemmas.C01_Pre
 import Kopf.Lemmas.C01_Term
 import Kopf.Lemmas.C01_Frame
+import Kopf.Lemmas.C01_Fail
 namespace Kopf.C01
 
 variable {lim : Option Nat} {ls : List Label} {s : State}
@@ -542,6 +543,56 @@ theorem frame_other_key {s s' : State} {l : Label} {w : Wid} (k : Key) (hk : w.k
   rcases hl with rfl | rfl | rfl | rfl | rfl | rfl | rfl | rfl <;> step_cases h <;>
     simp_all
 
+/-! ### The multiplexer never waits for a worker; a failure that drops events ends the watch -/
+
+/-- **No head-of-line blocking in the watcher**: while the watch is alive, whatever the workers, the
+    scheduler and the backlogs look like (no reachability premise: ANY state) — an event of ANY key can be
+    taken over at once: it is appended to the key's backlog (`arrive`) or, if there is none, taken in hand
+    (`miss`); and an event in hand is turned into stream + pending worker at once (`insert`). No segment of the
+    watcher has a guard on a worker's program counter, on a backlog's length, on the limit or on the running
+    set: "events of different objects never wait for each other" in the multiplexer itself.
+    (The harness checks the counterpart on the real watcher: it comes back to the stream within the same
+    virtual instant, also when tens of events are queued behind a slow processor.) -/
+theorem watcher_never_blocks (s : State) (hc : s.closing = false) :
+    (s.hand = none → ∀ k e, (step s (.arrive k e)).isSome = true ∨ (step s (.miss k e)).isSome = true) ∧
+    (∀ k e, s.hand = some (k, e) → (step s .insert).isSome = true) := by
+  refine ⟨fun hh k e => ?_, fun k e hh => ?_⟩
+  · cases hk : s.streams k with
+    | none => right; simp [step, stepCore, hc, hh, hk]
+    | some b => left; simp [step, stepCore, hc, hh, hk]
+  · simp [step, stepCore, hh]
+
+/-- An accepted event changes nothing but its own key's backlog / the watcher's hand and the arrival
+    history: in particular no worker instance, no other backlog, nothing in the scheduler. -/
+theorem arrival_frame {s s' : State} {k : Key} {e : Ev}
+    (h : step s (.arrive k e) = some s' ∨ step s (.miss k e) = some s') :
+    s'.pc = s.pc ∧ s'.pendingQ = s.pendingQ ∧ s'.running = s.running ∧ s'.started = s.started ∧
+    s'.processed = s.processed ∧ (∀ k', k' ≠ k → s'.streams k' = s.streams k') := by
+  rcases h with h | h <;> step_cases h <;> simp_all
+
+/-- **A failure that drops events ends the watch** — why `failedK k = false` is the property's own scope
+    ("while the watch is alive") and not an escape clause: once a worker of `k` died with an exception (its
+    backlog is gone with it), either the watch is already over (`closing`: no `arrive`/`miss` is enabled any
+    more), or the dead task is still in the scheduler's running set and the only thing it can do is `left`
+    (the done-callback: `exception_handler` → `watcher_task.cancel()`), which sets `closing`. -/
+theorem failure_ends_watch (h : Reach lim ls s) (k : Key) (hf : s.failedK k = true) :
+    s.closing = true ∨
+    ∃ w, w.key = k ∧ s.pc w = some (.leaving true) ∧ w ∈ s.running ∧
+      ∀ s', step s (.left w) = some s' → s'.closing = true := by
+  rcases failInv_reach h k hf with hc | ⟨w, hk, hp⟩
+  · exact Or.inl hc
+  · refine Or.inr ⟨w, hk, hp, ?_, ?_⟩
+    · exact ((inv_reach h).run_iff w).mpr ⟨_, hp, by simp⟩
+    · intro s' hs
+      simp only [step, stepCore, hp] at hs
+      cases hs
+      simp
+
+/-- … and once the watch is over nothing is taken from the stream any more. -/
+theorem no_arrival_when_closing (s : State) (hc : s.closing = true) (k : Key) (e : Ev) :
+    step s (.arrive k e) = none ∧ step s (.miss k e) = none := by
+  simp [step, stepCore, hc]
+
 /-! ### Which queue an event goes to -/
 
 theorem orDash_inj {a b : Option String} (ha : FieldOK a) (hb : FieldOK b) (h : orDash a = orDash b) :
@@ -588,6 +639,18 @@ theorem buggy_loses :
   · rfl
 
 -- ---- non-vacuity of the hypotheses --------------------------------------------------------------
+
+/-- `failure_ends_watch` is not vacuous: a run in which a processor fails with an event queued behind it — the
+    event is gone, the dead task is still in the running set, and its `left` ends the watch. -/
+example : ∃ s, Reach none [.miss 0 1, .insert, .spawn, .start ⟨0, 0⟩, .take ⟨0, 0⟩ 1, .arrive 0 2, .fail ⟨0, 0⟩] s ∧
+    s.failedK 0 = true ∧ s.closing = false ∧ s.streams 0 = none ∧ s.arrived 0 = [1, 2] ∧ s.processed 0 = [1] ∧
+    s.pc ⟨0, 0⟩ = some (.leaving true) := ⟨_, rfl, by decide, by decide, by decide, by decide, by decide, by decide⟩
+
+/-- `watcher_never_blocks` on a loaded state: limit 1, the only slot busy, two events queued, another worker pending. -/
+example : ∃ s, Reach (some 1) [.miss 0 1, .insert, .spawn, .start ⟨0, 0⟩, .take ⟨0, 0⟩ 1, .arrive 0 2, .arrive 0 3,
+      .miss 1 4, .insert] s ∧ s.closing = false ∧ s.hand = none ∧ s.running.length = 1 ∧ s.pendingQ.length = 1 ∧
+    (step s (.arrive 0 5)).isSome = true ∧ (step s (.arrive 1 6)).isSome = true ∧ (step s (.miss 2 7)).isSome = true :=
+  ⟨_, rfl, by decide, by decide, by decide, by decide, by decide, by decide, by decide⟩
 
 /-- a reachable, non-trivial state meeting the hypotheses of `lossless_ordered`, `stream_iff_worker`,
     `inflight_spec`, `serial`: key 0 busy with event 1 while 2 waits, key 1 busy with 3, limit 2. -/
